@@ -3,7 +3,8 @@
 Exhaustive bounded enumeration on the real block processor: reorg limit in {1,2,3,5,50} x
 daemon-height trajectories during sync (the daemon's extension placed at every n-th scheduler
 step of the sync, or block by block after catch-up) x a clean restart at several heights x
-fork depth in {limit-1, limit, limit+1}, natural and forced.
+fork depth in {limit-1, limit, limit+1}, natural and forced; a clean shutdown at every n-th
+scheduler step of the INITIAL sync followed by a restart; a chain of 265 blocks.
 Oracle: depth <= limit always succeeds and ends equal to the reference / a fresh server;
 depth limit+1 either succeeds or stops with the "no undo information" error and a database
 that reopens as an exact index of some height of the old chain; after every open no undo row
@@ -32,11 +33,45 @@ def check_window_after_open(w, limit, failures, label):
     if low:
         failures.append((f'{label}:undo-rows-older-than-window-after-open',
                          dict(height=h, limit=limit, stale=low)))
+    # ... and whatever the key format: no more undo rows than the window has blocks
+    n = sum(1 for k, _v in w.db.utxo_db.iterator(prefix=b'U') if len(k) == 5)
+    if n > max(limit, 0) and not low:
+        failures.append((f'{label}:more-undo-rows-than-the-window-after-open',
+                         dict(height=h, limit=limit, rows=n)))
+
+
+class _StopNow(Exception):
+    pass
+
+
+def clean_stop(w):
+    '''What the server does on SIGTERM: shutdown event + cancellation; the task flushes.'''
+    w.shutdown_event.set()
+    w.bp_task.cancel()
+    guard = 0
+    while not w.bp_task.done():
+        guard += 1
+        if guard > 100000:
+            raise common.Broken('the block processor does not stop')
+        if w.loop.step_ready():
+            continue
+        jobs = w.loop.pending_jobs()
+        if jobs:
+            w._after_job(w.loop.run_job(jobs[0]))
+            continue
+        if w.daemon.pending:
+            w.daemon.deliver(w.daemon.pending[0])
+            continue
+        raise common.Broken('the block processor hangs in its shutdown')
+
+
+LONG = ['fan'] + (['cb'] * 20 + ['old', 'cb', 'new', 'cb']) * 11          # 265 blocks
 
 
 def run_case(case, res):
     limit, depth, kind = case['limit'], case['depth'], case['kind']
-    base = reorgrun.sim_for(BASE)
+    recipes = LONG if case.get('long') else BASE
+    base = reorgrun.sim_for(recipes)
     blocks = base.blocks
     H = len(blocks) - 1
     failures = []
@@ -47,7 +82,24 @@ def run_case(case, res):
         w.daemon.set_chain(blocks[:case['h0'] + 1])
         w.start_sync()
         k = case.get('k')
-        if k is None:
+        if case.get('stop_at') is not None:
+            # a clean shutdown in the middle of the initial sync, then a restart
+            def stop_hook(n):
+                if n == case['stop_at']:
+                    raise _StopNow()
+            w.daemon.set_chain(blocks)
+            try:
+                w.run_until_caught_up(step_hook=stop_hook)
+            except _StopNow:
+                clean_stop(w)
+                res.distinct('stopped_at_heights', w.db.state.height)
+                w.close(destroy=False)
+                w = world.World(m, **wp)
+                w.daemon.set_chain(blocks)
+                w.start_sync()
+                w.run_until_caught_up()
+                res.count('restarts_during_initial_sync')
+        elif k is None:
             # caught up at h0, then the daemon grows one block per poll
             w.run_until_caught_up()
             for h in range(case['h0'] + 1, H + 1):
@@ -74,13 +126,13 @@ def run_case(case, res):
             res.count('restarts')
         # the reorganisation
         if kind == 'natural':
-            y = reorgrun.make_branch(BASE, depth, ['replay'] + ['new'] * depth, b'Y', base)
+            y = reorgrun.make_branch(recipes, depth, ['replay'] + ['new'] * depth, b'Y', base)
             final = y.blocks
             w.daemon.set_chain(final)
         else:
             if not w.bp.force_chain_reorg(depth):
                 raise common.Broken('forced reorg refused')
-            final = reorgrun.sim_for(BASE + ['new']).blocks
+            final = reorgrun.sim_for(recipes + ['new']).blocks
             w.daemon.set_chain(final)
         died = None
         try:
@@ -152,6 +204,20 @@ def cases_for(tier):
                             continue
                         cases.append(dict(limit=limit, depth=depth, kind=kind, restart=restart,
                                           prefetch=100 if (tr.get('k') or 0) % 2 == 0 else 3, **tr))
+    # a clean shutdown at every n-th scheduler step of the initial sync, then a restart
+    for limit in LIMITS:
+        for depth in sorted({limit - 1, limit}):
+            if depth < 1 or 2 * depth > H or depth > 6:
+                continue
+            for stop_at in range(3, 330, 13 if q else 4):
+                cases.append(dict(limit=limit, depth=depth, kind='natural', restart=False,
+                                  prefetch=100 if stop_at % 2 else 3, h0=H, k=0, stop_at=stop_at))
+    # a chain higher than 255 blocks (undo keys differ above their low byte): synced to 250,
+    # then block by block, restarted, reorganised
+    for limit, depth in ((5, 5), (3, 2)):
+        for restart in (True, False):
+            cases.append(dict(limit=limit, depth=depth, kind='natural', restart=restart, h0=250, k=None,
+                              long=True))
     return cases
 
 
@@ -162,7 +228,8 @@ def run(tier, seed, started):
     rel = res.sets.get('relation', set())
     need = {('depth<=limit', 'natural'), ('depth<=limit', 'forced'),
             ('depth=limit+1', 'natural'), ('depth=limit+1', 'forced')}
-    if not need <= {r[:2] for r in rel} or not c.get('restarts'):
+    if not need <= {r[:2] for r in rel} or not c.get('restarts') or \
+            c.get('restarts_during_initial_sync', 0) < 20:
         common.vacuous(PROP, res, f'vacuous C15 run: {rel} {c}')
     coverage = {
         'evaluations': c['executions'],
@@ -172,6 +239,8 @@ def run(tier, seed, started):
                  'block) x restart; distinct_nontrivial = half the cases (each trajectory differs in '
                  'which blocks were indexed how far behind the daemon) + outcome classes'),
         'outcome_classes': sorted(rel), 'restarts': c['restarts'],
+        'restarts_during_initial_sync': c['restarts_during_initial_sync'],
+        'heights_of_those_shutdowns': sorted(res.sets.get('stopped_at_heights', ())),
         'refused_reorgs_reopened': c.get('refused_reorgs_reopened', 0),
         'sync_steps_covered': c.get('max:sync_steps'),
         'exhaustive': True,
